@@ -614,8 +614,10 @@ fn main() {
     let mut log = CaseLog::new(&args);
     let msgs = gen_messages(args.seed, args.thorough);
     let nshards = if args.thorough { 32 } else { 16 };
-    let mut shard_txt: Vec<String> = vec![String::new(); nshards + 1];
+    let mut shard_txt: Vec<String> = vec![String::new(); nshards + 4];
+    let mut nbig = 0usize;
     let mut prev: Option<(PMsg, Vec<u8>, bool)> = None;
+    let mut logged = 0usize;
     for (i, m) in msgs.iter().enumerate() {
         let id = i as u64;
         if let Some(only) = &args.only {
@@ -677,7 +679,10 @@ fn main() {
             } else {
                 sum.finding(slug, id, format!("{} ({})", what, why), case(&bytes));
             }
-            log.log(id, case(&bytes));
+            if logged < 300 {
+                log.log(id, case(&bytes));
+                logged += 1;
+            }
         }
         // two consecutive frames in one buffer parse back as the two messages
         if let Some((pm, pbytes, pok)) = &prev {
@@ -701,7 +706,12 @@ fn main() {
         // ---- shard --------------------------------------------------------------------------
         if args.only.is_none() {
             let big = bytes.len() > 20_000;
-            let k = if big { nshards } else { i % nshards };
+            let k = if big {
+                nbig += 1;
+                nshards + nbig % 4
+            } else {
+                i % nshards
+            };
             if big {
                 let (mut a, mut c): (u128, u128) = (0, 0);
                 for &b in &bytes {
